@@ -3122,6 +3122,72 @@ impl XmlItem {
 
 // -----------------------------------------------------------------------------------------------
 
+/// An item of the id map. It refers to the node itself and not to one of the `Rc<XmlItem>`
+/// handles, so an id resolves for as long as the node is alive.
+enum XmlWeakItem {
+    Attribute(Weak<RefCell<XmlAttribute>>),
+    CData(Weak<RefCell<XmlCData>>),
+    CharReference(Weak<RefCell<XmlCharReference>>),
+    Comment(Weak<RefCell<XmlComment>>),
+    DeclarationAttList(Weak<RefCell<XmlDeclarationAttList>>),
+    Document(Weak<RefCell<XmlDocument>>),
+    DocumentType(Weak<RefCell<XmlDocumentTypeDeclaration>>),
+    Element(Weak<RefCell<XmlElement>>),
+    Entity(Weak<RefCell<XmlEntity>>),
+    Namespace(Weak<RefCell<XmlNamespace>>),
+    Notation(Weak<RefCell<XmlNotation>>),
+    PI(Weak<RefCell<XmlProcessingInstruction>>),
+    Text(Weak<RefCell<XmlText>>),
+    Unexpanded(Weak<RefCell<XmlUnexpandedEntityReference>>),
+    Unparsed(Weak<RefCell<XmlUnparsedEntity>>),
+}
+
+impl From<&XmlItem> for XmlWeakItem {
+    fn from(value: &XmlItem) -> Self {
+        match value {
+            XmlItem::Attribute(v) => XmlWeakItem::Attribute(Rc::downgrade(v)),
+            XmlItem::CData(v) => XmlWeakItem::CData(Rc::downgrade(v)),
+            XmlItem::CharReference(v) => XmlWeakItem::CharReference(Rc::downgrade(v)),
+            XmlItem::Comment(v) => XmlWeakItem::Comment(Rc::downgrade(v)),
+            XmlItem::DeclarationAttList(v) => XmlWeakItem::DeclarationAttList(Rc::downgrade(v)),
+            XmlItem::Document(v) => XmlWeakItem::Document(Rc::downgrade(v)),
+            XmlItem::DocumentType(v) => XmlWeakItem::DocumentType(Rc::downgrade(v)),
+            XmlItem::Element(v) => XmlWeakItem::Element(Rc::downgrade(v)),
+            XmlItem::Entity(v) => XmlWeakItem::Entity(Rc::downgrade(v)),
+            XmlItem::Namespace(v) => XmlWeakItem::Namespace(Rc::downgrade(v)),
+            XmlItem::Notation(v) => XmlWeakItem::Notation(Rc::downgrade(v)),
+            XmlItem::PI(v) => XmlWeakItem::PI(Rc::downgrade(v)),
+            XmlItem::Text(v) => XmlWeakItem::Text(Rc::downgrade(v)),
+            XmlItem::Unexpanded(v) => XmlWeakItem::Unexpanded(Rc::downgrade(v)),
+            XmlItem::Unparsed(v) => XmlWeakItem::Unparsed(Rc::downgrade(v)),
+        }
+    }
+}
+
+impl XmlWeakItem {
+    fn upgrade(&self) -> Option<XmlItem> {
+        match self {
+            XmlWeakItem::Attribute(v) => v.upgrade().map(XmlItem::Attribute),
+            XmlWeakItem::CData(v) => v.upgrade().map(XmlItem::CData),
+            XmlWeakItem::CharReference(v) => v.upgrade().map(XmlItem::CharReference),
+            XmlWeakItem::Comment(v) => v.upgrade().map(XmlItem::Comment),
+            XmlWeakItem::DeclarationAttList(v) => v.upgrade().map(XmlItem::DeclarationAttList),
+            XmlWeakItem::Document(v) => v.upgrade().map(XmlItem::Document),
+            XmlWeakItem::DocumentType(v) => v.upgrade().map(XmlItem::DocumentType),
+            XmlWeakItem::Element(v) => v.upgrade().map(XmlItem::Element),
+            XmlWeakItem::Entity(v) => v.upgrade().map(XmlItem::Entity),
+            XmlWeakItem::Namespace(v) => v.upgrade().map(XmlItem::Namespace),
+            XmlWeakItem::Notation(v) => v.upgrade().map(XmlItem::Notation),
+            XmlWeakItem::PI(v) => v.upgrade().map(XmlItem::PI),
+            XmlWeakItem::Text(v) => v.upgrade().map(XmlItem::Text),
+            XmlWeakItem::Unexpanded(v) => v.upgrade().map(XmlItem::Unexpanded),
+            XmlWeakItem::Unparsed(v) => v.upgrade().map(XmlItem::Unparsed),
+        }
+    }
+}
+
+// -----------------------------------------------------------------------------------------------
+
 #[derive(Clone, Debug, PartialEq)]
 pub struct XmlNamespace {
     prefix: Option<String>,
@@ -3958,7 +4024,7 @@ pub struct Context {
     idm: Singleton<IdManager>,
     document: Rc<XmlItem>,
     ordering: Singleton<DocumentOrder>,
-    id_map: Singleton<HashMap<usize, Weak<XmlItem>>>,
+    id_map: Singleton<HashMap<usize, XmlWeakItem>>,
     text_expanded: bool,
 }
 
@@ -3986,7 +4052,7 @@ impl Context {
         let id_map = singleton(HashMap::new());
         id_map
             .borrow_mut()
-            .insert(info.borrow().id, Rc::downgrade(&document));
+            .insert(info.borrow().id, XmlWeakItem::from(&*document));
 
         Context {
             info,
@@ -4001,7 +4067,7 @@ impl Context {
     fn add_item(&self, node: &Rc<XmlItem>) {
         self.id_map
             .borrow_mut()
-            .insert(self.info.borrow().id, Rc::downgrade(node));
+            .insert(self.info.borrow().id, XmlWeakItem::from(&**node));
     }
 
     fn document(&self) -> XmlNode<XmlDocument> {
@@ -4059,7 +4125,11 @@ impl Context {
     }
 
     fn node(&self, id: usize) -> Option<Rc<XmlItem>> {
-        self.id_map.borrow().get(&id).and_then(|v| v.upgrade())
+        self.id_map
+            .borrow()
+            .get(&id)
+            .and_then(|v| v.upgrade())
+            .map(Rc::new)
     }
 
     fn refresh_order(&self) {
